@@ -464,7 +464,7 @@ func excerpt(evs []vlib.Event, seq uint64, n int) []vlib.Event {
 }
 
 var pointShort = map[string]string{"modules.stop.ctrlset": "S1", "modules.stop.flagged": "S2", "modules.stop.cancelled": "S3", "modules.stop.timeout": "TO",
-	"modules.stop.check": "chk", "modules.worker.dec": "wdec", "modules.task.defer": "tdef", "modules.task.prelock": "tpre", "modules.mt.conclude": "mtc", "modules.ctrlfn.done": "cfd"}
+	"modules.stop.check": "chk", "modules.worker.dec": "wdec", "modules.task.defer": "tdef", "modules.task.prelock": "tpre", "modules.mt.conclude": "mtc", "modules.ctrlfn.done": "cfd", "modules.ctrlfn.sent": "cfs", "modules.task.cleared": "tclr"}
 
 // interleaving returns the signature of one stop: the order in which the stopper's
 // steps, the stop routine and the finishing items' decrement / completion-check steps
@@ -483,7 +483,7 @@ func interleaving(evs []vlib.Event, s *oStop, passRet uint64, itemMod map[string
 		switch e.Kind {
 		case "hook":
 			m := e.Who
-			if e.Op == "modules.task.defer" || e.Op == "modules.task.prelock" {
+			if e.Op == "modules.task.defer" || e.Op == "modules.task.prelock" || e.Op == "modules.task.cleared" {
 				m = itemMod[e.Who]
 			}
 			if m != s.mod {
